@@ -1172,10 +1172,18 @@ func (m *Manager) UnconfirmedParents(txn types.Transaction) []types.Transaction 
 			break
 		}
 	}
-	// reverse so that parents always come before children
-	for i := 0; i < len(parents)/2; i++ {
-		j := len(parents) - 1 - i
-		parents[i], parents[j] = parents[j], parents[i]
+	// the pool itself is ordered parents-first (each transaction was validated
+	// against its predecessors), so pool order is a valid order for the set;
+	// merely reversing the discovery order is not (a parent reached through
+	// two children can end up after one of them)
+	indices := make([]int, 0, len(seen))
+	for index := range seen {
+		indices = append(indices, index)
+	}
+	sort.Ints(indices)
+	parents = parents[:0]
+	for _, index := range indices {
+		parents = append(parents, m.txpool.txns[index])
 	}
 	return parents
 }
@@ -1225,10 +1233,18 @@ func (m *Manager) V2TransactionSet(basis types.ChainIndex, txn types.V2Transacti
 			break
 		}
 	}
-	// reverse so that parents always come before children
-	for i := range len(parents) / 2 {
-		j := len(parents) - 1 - i
-		parents[i], parents[j] = parents[j], parents[i]
+	// the pool itself is ordered parents-first (each transaction was validated
+	// against its predecessors), so pool order is a valid order for the set;
+	// merely reversing the discovery order is not (a parent reached through
+	// two children can end up after one of them)
+	indices := make([]int, 0, len(seen))
+	for index := range seen {
+		indices = append(indices, index)
+	}
+	sort.Ints(indices)
+	parents = parents[:0]
+	for _, index := range indices {
+		parents = append(parents, m.txpool.v2txns[index].DeepCopy())
 	}
 
 	// update the transaction's basis to match tip
